@@ -79,6 +79,12 @@ def rand_box(rng, t, dims=None):
                 l, h = h, l
         lo.append(l)
         hi.append(h)
+    if kind in ("inside", "straddle", "enclose") and rng.random() < (0.7 if dims == 2 else 0.3):
+        # faces on whole numbers (callers then often pass integers)
+        import math
+        lo = [float(math.floor(v)) for v in lo]
+        hi = [float(math.ceil(v)) for v in hi]
+        kind += "_whole"
     return kind, lo, hi
 
 
@@ -195,6 +201,11 @@ def run(ck):
             if malform:
                 ck.count("malformed:" + malform[0])
             bounds = Bounds(np.array(box[1]), np.array(box[2])) if box else None
+            if box and all(float(v).is_integer() and abs(v) < 2 ** 31 for v in box[1] + box[2]) and ck.rng.random() < 0.7:
+                # the same box given with integer faces (an integer array): the result must not depend on the dtype of the faces
+                ck.count("box_given_as_integers" + (":2d" if len(box[1]) == 2 else ""))
+                inp["box_dtype"] = "int"
+                bounds = Bounds(np.array([int(v) for v in box[1]]), np.array([int(v) for v in box[2]]))
             # --- model's view
             if box:
                 lo = list(box[1]) + [float(hdr.mins[2])] * (3 - len(box[1]))
